@@ -8,6 +8,7 @@ import (
 	"sort"
 	"strings"
 	"sync/atomic"
+	"time"
 
 	"verif/mc"
 
@@ -477,7 +478,7 @@ func longOps(c longCase) (start []int, ops []op) {
 }
 
 func checkLong(c longCase) *mc.Failure {
-	return mc.GuardT("heap-long", c, func() *mc.Failure {
+	return mc.GuardTL("heap-long", c, 20*time.Minute, func() *mc.Failure {
 		start, ops := longOps(c)
 		var local counters
 		s := &inst{c: &cfg{}, cnt: &local, desc: c.Desc}
@@ -551,7 +552,7 @@ func main() {
 			},
 		},
 		mc.Harness{
-			Name: "heap-long",
+			Name: "heap-long", HangLimit: 20 * time.Minute,
 			Explore: func(r *mc.Run) {
 				var cases []longCase
 				for _, n := range mc.Pick(r, []int{17, 33, 64, 65, 130, 300}, []int{17, 33, 64, 65, 130, 300, 513, 1025}) {
